@@ -1,10 +1,13 @@
 import CbiVerif.Lemmas.LexRoundtrip
 import CbiVerif.Model.EvalBridge
+import CbiVerif.Lemmas.EvalChar
 /-!
 # C02: the source tokens of every parse tree are read back by the lexer
 
-`lexable a` (integer constants syntactically valid, character constants plain or with a one-character
-backslash escape, identifiers made of letters, digits, `_`) implies that every token of
+`lexable a` (integer constants syntactically valid; character constants plain, with a one-character
+backslash escape, `\ooo` with one to three octal digits or `\xh…` with at least one hexadecimal digit — this
+includes every character constant that has a C value, `chr_lexable_of_value`; identifiers made of letters,
+digits, `_`) implies that every token of
 `renderSrc a` is in the class `LexRT.lexOK`, so `LexRT.tokenize_text` applies to the text of `a`.
 -/
 namespace CbiVerif.LexSource
@@ -16,7 +19,8 @@ def lexable : CExpr.Ast → Bool
   | .chr c => (match c with
       | .plain ch => isPrintable ch && ch != '\\' && ch != '\''
       | .simple ch => isPrintable ch
-      | _ => false)
+      | .octal ds => decide (1 ≤ ds.length) && decide (ds.length ≤ 3)
+      | .hex ds => decide (1 ≤ ds.length))
   | .ident n => identOK n.toList
   | .defd n _ => identOK n.toList
   | .paren a => lexable a
@@ -74,9 +78,63 @@ theorem chr_ok (c : CharLit) (h : lexable (.chr c) = true) : lexOK (chrTok (Stri
   rw [String.toList_ofList]
   cases c with
   | plain ch => simpa [lexable, CharLit.chars, chrOK] using h
-  | simple ch => simpa [lexable, CharLit.chars, chrOK] using h
-  | octal ds => simp [lexable] at h
-  | hex ds => simp [lexable] at h
+  | simple ch =>
+    have hp : isPrintable ch = true := h
+    simp only [CharLit.chars, chrOK, List.isEmpty_nil, Bool.true_and, hp, Bool.true_or]
+  | octal ds =>
+    simp only [lexable, Bool.and_eq_true, decide_eq_true_eq] at h
+    match ds, h with
+    | d :: r, h =>
+      have hl : (r.map EvalChar.octChar).length ≤ 2 := by simp at h ⊢; omega
+      show chrOK ('\\' :: EvalChar.octChar d :: r.map EvalChar.octChar) = true
+      have h2 : (isOctDigit (EvalChar.octChar d) && decide ((r.map EvalChar.octChar).length ≤ 2) &&
+          (r.map EvalChar.octChar).all isOctDigit) = true := by
+        rw [(EvalChar.oct_facts d).1, EvalChar.all_oct, decide_eq_true hl]; rfl
+      simp only [chrOK, h2, Bool.or_true, Bool.true_or]
+  | hex ds =>
+    simp only [lexable, decide_eq_true_eq] at h
+    have hne : (ds.map Digit.char).isEmpty = false := by
+      cases ds with
+      | nil => simp at h
+      | cons _ _ => rfl
+    have h3 : ((('x' : Char) == 'x') && !(ds.map Digit.char).isEmpty && (ds.map Digit.char).all isHexDigit) = true := by
+      rw [hne, EvalChar.all_hex]; rfl
+    simp only [CharLit.chars, chrOK, h3, Bool.or_true]
+
+/-- every character constant that has a C value is written as one lexer token -/
+theorem chr_lexable_of_value (c : CharLit) (h : (cChar c).isSome = true) : lexable (.chr c) = true := by
+  simp only [cChar, Option.isSome_map, Option.isSome_iff_exists] at h
+  obtain ⟨n, hn⟩ := h
+  cases c with
+  | plain ch =>
+    simp only [CharLit.code] at hn
+    split at hn
+    · rename_i hr
+      simp only [Bool.and_eq_true, decide_eq_true_eq, bne_iff_ne, ne_eq] at hr
+      simp only [lexable, isPrintable, Bool.and_eq_true, decide_eq_true_eq, bne_iff_ne, ne_eq]
+      exact ⟨⟨⟨hr.1.1.1, hr.1.1.2⟩, hr.2⟩, hr.1.2⟩
+    · simp at hn
+  | simple ch =>
+    simp only [CharLit.code] at hn
+    simp only [lexable]
+    unfold simpleEscape at hn
+    split at hn <;> first | decide | simp at hn
+  | octal ds =>
+    simp only [CharLit.code] at hn
+    split at hn
+    · rename_i hr
+      simp only [Bool.and_eq_true, decide_eq_true_eq] at hr
+      simp only [lexable, Bool.and_eq_true, decide_eq_true_eq]
+      exact hr.1
+    · simp at hn
+  | hex ds =>
+    simp only [CharLit.code] at hn
+    split at hn
+    · rename_i hr
+      simp only [Bool.and_eq_true, decide_eq_true_eq] at hr
+      simp only [lexable, decide_eq_true_eq]
+      exact hr.1
+    · simp at hn
 
 theorem renderSrc_ok (a : CExpr.Ast) (h : lexable a = true) : ∀ t ∈ renderSrc a, lexOK t = true := by
   induction a with
